@@ -860,7 +860,8 @@ func (c *Conn) advanceFrame() (int, error) {
 	if frameType == continuationFrame || frameType == TextMessage || frameType == BinaryMessage {
 
 		c.readLength += c.readRemaining
-		if c.readLimit > 0 && c.readLength > c.readLimit {
+		// The message size overflows for a huge frame, it must not pass the read limit.
+		if c.readLength < 0 || (c.readLimit > 0 && c.readLength > c.readLimit) {
 			c.WriteControl(CloseMessage, FormatCloseMessage(CloseMessageTooBig, ""), time.Now().Add(writeWait))
 			return noFrame, ErrReadLimit
 		}
